@@ -6,15 +6,23 @@
 (* positions each handler read, what a tee branch read) recorded when it   *)
 (* ran alone (solo) and when it ran among the others (together).  The      *)
 (* stream clauses are those of L4RouterAbs (R7: exactly once, in order).   *)
+(* kind "matcher": the shipped protocol matchers, one instance per route   *)
+(* shared by all connections; the connection's valid first message must be *)
+(* routed by its own protocol's route (X4).                                *)
 (***************************************************************************)
 EXTENDS L4Segs, Json, TLC, TLCExt
 Traces == ndJsonDeserialize("conc_traces.ndjson")
 RECURSIVE Reads(_)
 Reads(h) == IF h = <<>> THEN <<>>
             ELSE IF Head(h).e = "HRead" THEN Head(h).segs \o Reads(Tail(h)) ELSE Reads(Tail(h))
+RECURSIVE Routes(_)
+Routes(h) == IF h = <<>> THEN <<>>
+             ELSE IF Head(h).e = "Handle" THEN <<Head(h).r>> \o Routes(Tail(h)) ELSE Routes(Tail(h))
 Judge(t) ==
   LET v == (IF t.together = t.solo THEN {} ELSE {"X1 a connection behaved differently among concurrent connections than alone"})
            \cup (IF Contig(Reads(t.together), 0) THEN {} ELSE {"X2 a connection read bytes that are not its own stream in order (cross-talk)"})
+           \cup (IF t.kind = "matcher" /\ Routes(t.together) # <<t.wantRoute>>
+                 THEN {"X4 a valid first message was not routed by its protocol's matcher while other connections used the same matcher"} ELSE {})
            \cup (IF t.kind = "lb" /\ t.badSelections # 0 THEN {"X3 a selection policy shared by several goroutines returned an unavailable upstream or none"} ELSE {}) IN
   IF v = {} THEN TRUE ELSE PrintT(<<"VBAD", ToJson([id |-> t.id, clauses |-> v])>>)
 VARIABLE k
